@@ -66,6 +66,21 @@ def make_case(G, i):
     return A, B, 'random'
 
 
+def strictly_nested(G, j):
+    """(outer, inner) for even j, (inner, outer) for odd j: the inner body is the outer one shrunk towards its vertex mean"""
+    F = E.F
+    for _ in range(50):
+        faces, _ = G.body()
+        vs = E.vertices_of(('B', faces))
+        c = E.mean(vs)
+        k = G.R.choice([F(1, 2), F(1, 4), F(3, 4)])
+        inner = [[tuple(ci + k * (pi - ci) for pi, ci in zip(p, c)) for p in f] for f in faces]
+        A, B = G.shuffled_body(faces), G.shuffled_body(inner)
+        if C03.ok_size(A) and admit.admitted([A, B])[0]:
+            return (A, B, 'nested-strict') if j % 2 == 0 else (B, A, 'nested-strict')
+    raise RuntimeError('no admissible nested pair')
+
+
 def work(args):
     seed, n, idx = args
     from .. import impl
@@ -110,9 +125,15 @@ def run(ctx, scale=1):
         for A, B, cls in Gc.collinear_catalogue():
             cases.append((A, B, cls, interlib.observe(impl, A, B), interlib.observe(impl, B, A),
                           interlib.observe(impl, A, B, method=True) if A[0] != 'P' else None))
+    # a fixed share of strictly nested bodies (no face of the outer body meets the inner one), outer operand first and second:
+    # the only position in which the second pass of the body x body handler alone produces the answer
+    for j in range(ctx.n(8, 60) * scale):
+        A, B, cls = strictly_nested(Gc, j)
+        cases.append((A, B, cls, interlib.observe(impl, A, B), interlib.observe(impl, B, A), interlib.observe(impl, A, B, method=True)))
     outs = core.model_lines(['inter %s %s' % (tok(A), tok(B)) for A, B, *_ in cases])
     for (A, B, cls, o1, o2, o3), ml in zip(cases, outs):
         ctx.dist['pair %s-%s' % (A[0], B[0])] += 1
+        ctx.dist['position ' + cls] += 1 if cls == 'nested-strict' else 0
         ok = interlib.judge(ctx, 'C04', A, B, cls, o1, ml)
         # swapped order and method form must denote the same set as the exact result
         m = compare.parse_model(ml)
